@@ -7,10 +7,10 @@ PROP = {
         "InSampledTraceFilter::matches, Traceparent::{current, push, new}, set_active_traceparent, get_active_traceparent, ActiveTraceparent::is_parent_of}",
         "emit::span::{SpanGuard::new, SpanCtxt::{current, new_child}}, emit::Frame::{current, call}",
     ],
-    "bounds": "quick: ONE step from an arbitrary current traceparent (none, or any valid ids with either flag): the sampling filter on one span "
-              "event; one TraceparentCtxt frame (pushed or disabled) entered and left; two harness threads. thorough: span trees of depth <= 1 "
-              "(2) through SpanGuard with a symbolic sampler verdict and an optional incoming header",
-    "outside": "the real ThreadLocalCtxt as inner context (does not fit CBMC): the array-backed harness context stands in; real threads and async "
+    "bounds": "ONE step from an arbitrary current traceparent (none, or valid ids with either flag): the sampling filter on one span event, with a sampler "
+              "(symbolic verdict, call count) and without one; two harness threads with independent current traceparents. The TraceparentCtxt frame step and "
+              "whole span trees exist as harnesses (c18_x_*) but give no verdict in 900 s: NOT decided",
+    "outside": "TraceparentCtxt enter/exit restoring the previous traceparent and span trees through SpanGuard (harnesses do not finish); the real ThreadLocalCtxt as inner context (does not fit CBMC): the array-backed harness context stands in; real threads and async "
                "interleavings; invalid / mismatched incoming headers beyond the two cases; Tracestate propagation",
     "stubs": ["thread_local! ACTIVE_TRACEPARENT -> per-'thread' slots indexed by a harness-controlled thread id (stubs/tls_traceparent.toml)",
               "inner Ctxt = env::ArrCtxt", "rng = counter", "sampler = closure with call counter and symbolic verdict",
